@@ -296,6 +296,175 @@ def judge(case, out, world, peer, record, conn) -> t.Tuple[t.Optional[dict], dic
     return None, probes
 
 
+class RecordingCtx:
+    """Transparent recorder around a *real* pyspnego context (NTLM / Negotiate->NTLM)."""
+
+    def __init__(self, real, record):
+        object.__setattr__(self, "_real", real)
+        object.__setattr__(self, "_rec", record)
+        object.__setattr__(self, "_n", 0)
+
+    def __getattr__(self, name):
+        return getattr(self._real, name)
+
+    def step(self, in_token=None, **kw):
+        object.__setattr__(self, "_n", self._n + 1)
+        was_complete = self._real.complete
+        out = self._real.step(in_token, **kw)
+        self._rec.append(("step", self._n, None if in_token is None else bytes(in_token), was_complete, None if out is None else bytes(out)))
+        return out
+
+    def wrap_iov(self, iov, **kw):
+        self._rec.append(("wrap", [int(x[0]) if isinstance(x, tuple) else -1 for x in iov], self._real.complete))
+        return self._real.wrap_iov(iov, **kw)
+
+    def unwrap_iov(self, iov, **kw):
+        self._rec.append(("unwrap", [int(x[0]) if isinstance(x, tuple) else -1 for x in iov], self._real.complete))
+        return self._real.unwrap_iov(iov, **kw)
+
+
+class _CutServer(peers.RpcServer):
+    """Conforming server that turns Byzantine after ``cut_after`` client PDUs: answers the next one with ``terminal``."""
+
+    def __init__(self, *a, cut_after=None, terminal=None, **kw):
+        super().__init__(*a, **kw)
+        self.cut_after, self.terminal, self.cut_done = cut_after, terminal, False
+        self.acks: list = []
+
+    def handle_pdu(self, conn, idx, raw):
+        if self.cut_after is not None and idx == self.cut_after:
+            self.cut_done = True
+            self.log.append({"conn": conn.cid, "event": "client_pdu_raw", "raw": raw})
+            if self.terminal == "nak":
+                conn.peer_send(rpce.build_bind_nak(reason=2))
+            elif self.terminal == "fault":
+                conn.peer_send(rpce.build_fault(5))
+            elif self.terminal == "eof":
+                conn.peer_eof()
+            elif self.terminal == "request":
+                conn.peer_send(rpce.build_request(b"\x00" * 8))
+            return
+        if self.cut_done:
+            self.log.append({"conn": conn.cid, "event": "after_cut", "raw": raw})
+            return
+        super().handle_pdu(conn, idx, raw)
+
+
+def run_real(case) -> dict:
+    """{"real": "ntlm"|"negotiate", "flavour", "hs": 0/1, "cut_after": k|None, "terminal": .., "empty_trailer": bool}:
+    the real pyspnego initiator (recorded) against a real acceptor behind a conforming server."""
+    import dpapi_ng._rpc as rpc
+    import spnego
+    import spnego.iov as siov
+
+    from checks import plan as P
+
+    P.ensure_ntlm_env()
+    fl = case["flavour"]
+    world = W.World(case.get("seed", 0))
+    record: list = []
+    real_client = spnego.client
+
+    made: list = []
+
+    def factory(*a, **kw):
+        ctx = real_client(*a, **kw)
+        if made:  # contexts the Negotiate mechanism creates for itself are left alone
+            return ctx
+        made.append(ctx)
+        return RecordingCtx(ctx, record)
+
+    def handler(server, conn, req):
+        return ("response", b"REAL-CTX-STUB-0123")
+
+    srv = _CutServer({rpce.ISD_KEY_IF: handler}, lambda at: secctx.NtlmAcceptor("ntlm" if at == 0x0A else "negotiate"),
+                     {"header_sign": bool(case["hs"]), "ack_token_empty_trailer": bool(case.get("empty_trailer"))},
+                     cut_after=case.get("cut_after"), terminal=case.get("terminal"))
+    world.add_route(DC, GKDI_PORT, srv)
+    ctxs = _contexts()
+    creds = dict(username=f"{P.NTLM_DOMAIN}\\{P.NTLM_USER}", password=P.NTLM_PASS, auth_protocol=case["real"])
+
+    def sync_work():
+        with rpc.create_rpc_connection(DC, GKDI_PORT, **creds) as c:
+            c.bind(ctxs)
+            return c.request(0, 0, b"\xAA" * 13)
+
+    async def async_work():
+        c = await rpc.async_create_rpc_connection(DC, GKDI_PORT, **creds)
+        async with c:
+            await c.bind(ctxs)
+            return await c.request(0, 0, b"\xAA" * 13)
+
+    with world.installed(ctx_factory=factory):
+        out = drive.classify(sync_work) if fl == "sync" else drive.classify(lambda: drive.run_async(world, async_work, random.Random(case.get("seed", 0))))
+    probes = {"real_" + case["real"]: 1}
+    viol = None
+
+    def V(clause, cond, detail):
+        return common.violation("C15", clause, fl + "-real-" + case["real"], cond, "", "", f"{detail}; case={case} outcome={out.brief()} {out.exc!r}")
+
+    conn = world.conns[0] if world.conns else None
+    raws = rpce.split_stream(bytearray(b"".join(conn.tx_log))) if conn else []
+    pdus = [rpce.parse_pdu(r) for r in raws]
+    steps = [r for r in record if r[0] == "step"]
+    produced = [s[4] or b"" for s in steps]
+    nonempty = [t_ for t_ in produced if t_]
+    hs_pdus = [p for p in pdus if p["ptype"] in (rpce.BIND, rpce.ALTER_CONTEXT)]
+    reqs = [p for p in pdus if p["ptype"] == rpce.REQUEST]
+    sent = [p["auth"]["value"] if p["auth"] else None for p in hs_pdus]
+    acks = [rpce.parse_pdu(m) for m in (conn.rx_msgs if conn else []) if len(m) > 2 and m[2] in (rpce.BIND_ACK, rpce.ALTER_CONTEXT_RESP)]
+    if any(s[3] for s in steps):
+        viol = V("c", "step-after-complete", "step() on a complete real context")
+    elif sent != nonempty[: len(sent)] or len(sent) < len(nonempty) - 1 or (len(sent) < len(nonempty) and out.kind == "ok"):
+        viol = V("a", "token-relay", f"{len(sent)} tokens on the wire vs {len(nonempty)} produced, or order/content differs")
+    elif any(p["auth"] is None or p["auth_len"] != len(p["auth"]["value"]) for p in hs_pdus):
+        viol = V("a", "auth-len", "handshake PDU without token or with a wrong auth_len")
+    elif hs_pdus and (hs_pdus[0]["ptype"] != rpce.BIND or any(p["ptype"] == rpce.BIND for p in hs_pdus[1:])):
+        viol = V("a", "bind-order", "first token not in the bind / a second bind")
+    else:
+        for i, s_ in enumerate(steps[1:]):
+            if i >= len(acks):
+                viol = V("b", "step-without-ack", f"step() #{i + 2} without a server ack")
+                break
+            a = acks[i]["auth"]
+            expect = a["value"] if a else b""
+            if (s_[2] or b"") != expect:
+                viol = V("b", "token-feedback", f"step() #{i + 2} was not fed the token of server ack #{i + 1}")
+                break
+    if not viol and reqs and pdus.index(reqs[0]) < len(hs_pdus):
+        viol = V("c", "request-before-handshake-end", "request written before the last handshake PDU")
+    if not viol and reqs and steps and not all(s[3] is False for s in steps):
+        pass
+    if not viol:
+        wraps = [r for r in record if r[0] in ("wrap", "unwrap")]
+        want = int(siov.BufferType.sign_only) if case["hs"] else int(siov.BufferType.data_readonly)
+        for w in wraps:
+            if w[1][0] != want or w[1][2] != want:
+                viol = V("e", "header-sign-" + ("missing" if case["hs"] else "unexpected"), f"{w[0]} buffer types {w[1]} while the server {'advertised' if case['hs'] else 'did not advertise'} header signing")
+                break
+            probes["hs_on" if case["hs"] else "hs_off"] = 1
+    if not viol and srv.cut_done:
+        probes["real_terminal_" + str(case.get("terminal"))] = 1
+        if out.kind != "raise":
+            viol = V("f", "not-an-error-" + str(case.get("terminal")), "server rejection / stream end did not surface as an error")
+        elif any(e.get("event") == "after_cut" for e in srv.log):
+            viol = V("f", "talks-after-rejection", "client wrote more PDUs after the rejection")
+    if not viol and not srv.cut_done:
+        if out.kind != "ok":
+            viol = V("f", "conforming-handshake-failed", f"real {case['real']} handshake against a conforming server failed; server: {srv.violations[:2]}")
+        else:
+            probes["real_success"] = 1
+            v = out.value
+            pad = v.sec_trailer.pad_length if v.sec_trailer else 0
+            if v.stub_data[: len(v.stub_data) - pad] != b"REAL-CTX-STUB-0123":
+                viol = V("f", "wrong-stub", "stub differs from what the server sealed")
+        if srv.violations and not viol:
+            viol = V("a", "server-saw-violation", f"{srv.violations[:2]}")
+    probes["real_legs_%d" % len(steps)] = 1
+    return {"viol": viol, "digest": world.digest() + out.brief(), "key": common.key_hash(case), "fired": {"real_ctx_runs": 1}, "probes": probes,
+            "vtime_ns": world.stats.get("vtime_ns", 0)}
+
+
 def _acks_reduced(full: bool):
     res = ("AN", "PN", "A", "ANA") if full else ("AN", "PN")
     toks = ("tok", "none")
@@ -310,14 +479,17 @@ class C15(common.Check):
             "result vector x header-sign flag x token/no token) followed by every reply to the request {response, fault, bind_nak, "
             "request, bind_ack, EOF}, plus every earlier terminal, exhaustively; PRNG scripts over the full alphabet (all result codes, "
             "vector lengths 0..3, cross-type acks, empty tokens) up to depth 8. Non-trivial = script contains a terminal, a rejection, "
-            "a missing token or a cleared header-sign flag; distinct = distinct (cfg, script, flavour, api).")
+            "a missing token or a cleared header-sign flag; distinct = distinct (cfg, script, flavour, api). Real-context cases: NTLM and "
+            "Negotiate->NTLM handshakes (recorded through a transparent proxy) against a real acceptor, header signing on/off, conforming and "
+            "cut short by bind_nak / fault / EOF / request after 0..3 client PDUs.")
     components = {"client": "real (RpcClient.bind/request, _sync_get_key/_async_get_key, AuthenticationProvider)",
-                  "peer": "scripted (ref.rpce encoders)", "security context": "stub (StubCtx, records every call)",
+                  "peer": "scripted (ref.rpce encoders)", "security context": "stub (StubCtx, records every call); plus the real pyspnego NTLM and Negotiate->NTLM initiator (behind a recording proxy) against a real acceptor",
                   "endpoint mapper": "model (RefDC)", "transport": "simulated"}
     assumptions = ["which ack may clear header signing is ambiguous when flags are mixed: clause (e) is evaluated only on scripts whose acks all agree",
                    "an alter_context_resp answering a bind (and vice versa) is recorded, not judged",
                    "context results inside alter_context_resp are recorded, not judged"]
-    required_fired = ("terminal_nak", "terminal_fault", "terminal_eof", "terminal_request", "hs_on", "hs_off", "conforming_success")
+    required_fired = ("terminal_nak", "terminal_fault", "terminal_eof", "terminal_request", "hs_on", "hs_off", "conforming_success",
+                      "real_success", "real_ntlm", "real_negotiate", "real_terminal_nak", "real_terminal_eof")
 
     def exhaustive(self, tier):
         return True
@@ -343,6 +515,15 @@ class C15(common.Check):
                             tails = req_replies if depth == k else [t_ for t_ in TERMINALS if t_ != ["response"]] + [["response"]]
                             for tail in tails:
                                 out.append({"cfg": cfg, "script": list(prefix) + [tail], "flavour": fl, "api": api, "seed": len(out)})
+        # real pyspnego contexts (NTLM: 2 legs, Negotiate->NTLM: 3 legs) against a real acceptor, conforming and cut short
+        for real in ("ntlm", "negotiate"):
+            for fl in ("sync", "async"):
+                for hs in (1, 0):
+                    for et in (False, True):
+                        out.append({"real": real, "flavour": fl, "hs": hs, "cut_after": None, "terminal": None, "empty_trailer": et, "seed": len(out)})
+                    for cut in (0, 1, 2, 3):
+                        for term in ("nak", "fault", "eof", "request"):
+                            out.append({"real": real, "flavour": fl, "hs": hs, "cut_after": cut, "terminal": term, "empty_trailer": False, "seed": len(out)})
         # PRNG scripts over the full alphabet
         n_rand = 6000 if tier == "quick" else 400000
         rng = prng.stream(seed, "C15", "scripts")
@@ -364,6 +545,8 @@ class C15(common.Check):
         return out
 
     def run_case(self, case):
+        if "real" in case:
+            return run_real(case)
         out, world, peer, record, conn = execute(case)
         viol, probes = judge(case, out, world, peer, record, conn)
         nontrivial = any(el[0] != "ack" or el[2] != "AN" or el[3] != 1 or el[4] != "tok" for el in case["script"][:-1]) or case["script"][-1] != ["response"]
@@ -372,6 +555,10 @@ class C15(common.Check):
                 "vtime_ns": world.stats.get("vtime_ns", 0)}
 
     def shrink(self, case):
+        if "real" in case:
+            if case["flavour"] == "async":
+                yield dict(case, flavour="sync")
+            return
         s = case["script"]
         for i in range(len(s)):
             yield dict(case, script=s[:i] + s[i + 1 :])
